@@ -103,11 +103,39 @@ type pdfCase struct {
 	d    *docSpec
 	per  [][]item
 	path string
+
+	directOK      bool         // direct check ran to the end without a verdict
+	directDeleted map[int]bool // units FilterFragments deleted (direct API)
+	directPartial bool         // some unit lost only part of its fragments
+	reducedPath   string       // the same document without the units in directDeleted ("" = not built)
+	renderSeed    func() *rand.Rand
+	dir           string
+}
+
+// reduced builds (once) the counterfactual document: the same units, same
+// stream order, minus the units the direct FilterFragments deleted.
+func (pc *pdfCase) reduced() string {
+	if pc.reducedPath != "" {
+		return pc.reducedPath
+	}
+	rd := *pc.d
+	rd.Units = nil
+	for ui, u := range pc.d.Units {
+		if !pc.directDeleted[ui] {
+			rd.Units = append(rd.Units, u)
+		}
+	}
+	_, data := render(&rd, pc.renderSeed())
+	pc.reducedPath = strings.TrimSuffix(pc.path, ".pdf") + "-reduced.pdf"
+	os.WriteFile(pc.reducedPath, data, 0o644)
+	return pc.reducedPath
 }
 
 // directCheck: Detect on the extracted fragments of all pages, FilterFragments per page.
 // Returns a verdict ("" class = ok) and whether the extraction baseline matched the construction.
 func directCheck(c *fw.Ctx, pc *pdfCase) (verdict, bool) {
+	pc.directDeleted = map[int]bool{}
+	pc.directPartial = false
 	d := pc.d
 	frags := make([][]text.TextFragment, d.NPages)
 	owner := make([][]int, d.NPages) // fragment -> unit index
@@ -159,7 +187,7 @@ func directCheck(c *fw.Ctx, pc *pdfCase) (verdict, bool) {
 			}
 		}
 		if j != len(out) {
-			return verdict{"direct/not-subsequence", fmt.Sprintf("FilterFragments(page %d) returned fragments that are not a subsequence of its input (%d in, %d out, matched %d)", p+1, len(frags[p]), len(out), j)}, true
+			return verdict{Class: "direct/not-subsequence", What: fmt.Sprintf("FilterFragments(page %d) returned fragments that are not a subsequence of its input (%d in, %d out, matched %d)", p+1, len(frags[p]), len(out), j)}, true
 		}
 		c.Count("direct_fragments_in", int64(len(frags[p])))
 		delUnits := map[int]int{}
@@ -172,18 +200,24 @@ func directCheck(c *fw.Ctx, pc *pdfCase) (verdict, bool) {
 			}
 		}
 		for ui, n := range delUnits {
+			pc.directDeleted[ui] = true
+			if n != total[ui] {
+				pc.directPartial = true
+			}
+		}
+		for ui, n := range delUnits {
 			u := &d.Units[ui]
 			if !u.Deletable {
-				return verdict{"direct/deleted-protected/" + u.Role, fmt.Sprintf("FilterFragments(page %d) deleted %d of %d fragment(s) of unit %s", p+1, n, total[ui], u.brief())}, true
+				return verdict{Class: "direct/deleted-protected/" + u.Role, What: fmt.Sprintf("FilterFragments(page %d) deleted %d of %d fragment(s) of unit %s", p+1, n, total[ui], u.brief())}, true
 			}
 		}
 		if (d.NPages == 1 || !anyDeletable) && len(out) != len(frags[p]) {
-			return verdict{"direct/changed-without-repetition", fmt.Sprintf("page %d changed although the document has no repeated marginal text", p+1)}, true
+			return verdict{Class: "direct/changed-without-repetition", What: fmt.Sprintf("page %d changed although the document has no repeated marginal text", p+1)}, true
 		}
 		for ui, n := range total {
 			u := &d.Units[ui]
 			if u.Must && delUnits[ui] != n {
-				return verdict{"direct/survived/" + u.Role, fmt.Sprintf("FilterFragments(page %d) kept %d of %d fragment(s) of unit %s, which is on every page", p+1, n-delUnits[ui], n, u.brief())}, true
+				return verdict{Class: "direct/survived/" + u.Role, What: fmt.Sprintf("FilterFragments(page %d) kept %d of %d fragment(s) of unit %s, which is on every page", p+1, n-delUnits[ui], n, u.brief())}, true
 			}
 		}
 	}
@@ -264,9 +298,12 @@ func facadeCheck(c *fw.Ctx, pc *pdfCase, q request) (verdict, bool) {
 		return verdict{}, false
 	}
 	if err1 != nil {
-		return verdict{"facade/error", fmt.Sprintf("%s fails with exclusion (%v) but not without", q, err1)}, true
+		return verdict{Class: "facade/error", What: fmt.Sprintf("%s fails with exclusion (%v) but not without", q, err1)}, true
 	}
 	U, F := atomsOf(base), atomsOf(got)
+	if os.Getenv("C11_DEBUG") != "" {
+		fmt.Fprintf(os.Stderr, "--- %s\nwithout: %q\nwith:    %q\n", q, base, got)
+	}
 	v, ok := judgeAtoms(d, selSet(d, q.Sel), truthMode(q.Mode), U, F)
 	if !ok {
 		return v, false
@@ -276,6 +313,19 @@ func facadeCheck(c *fw.Ctx, pc *pdfCase, q request) (verdict, bool) {
 	if v.Class != "" {
 		v.Class = "facade/" + q.API + "/" + v.Class
 		v.What = q.String() + ": " + v.What
+		// Counterfactual for the layout-analysis paths: the same request
+		// without exclusion on the document that lacks exactly the units the
+		// direct filter removes. If that yields the same atoms, exclusion
+		// removed only what the (separately judged) filter removes and the
+		// difference to the unfiltered output is the layout analysis reacting
+		// to the smaller fragment set.
+		if pc.directOK && !pc.directPartial {
+			red, err := view(pc.reduced(), q.Sel, q.SelHow, "", q.API, q.TM)
+			if err == nil && equalStrings(atomsOf(red), F) {
+				v.Finding = findingReflow
+				c.Count("reflow_at "+q.API+"/"+q.TM+fmt.Sprintf("/char=%v", d.CharLevel)+"/"+strings.SplitN(v.Class, "/", 4)[2], 1)
+			}
+		}
 		return v, true
 	}
 	anyDeletable := false
@@ -285,10 +335,25 @@ func facadeCheck(c *fw.Ctx, pc *pdfCase, q request) (verdict, bool) {
 		}
 	}
 	if (d.NPages == 1 || !anyDeletable) && got != base {
-		return verdict{"facade/" + q.API + "/changed-without-repetition", fmt.Sprintf("%s: output differs from the output without exclusion although the document has no repeated marginal text: %q vs %q", q, fw.OneLine(got, 300), fw.OneLine(base, 300))}, true
+		return verdict{Class: "facade/" + q.API + "/changed-without-repetition", What: fmt.Sprintf("%s: output differs from the output without exclusion although the document has no repeated marginal text: %q vs %q", q, fw.OneLine(got, 300), fw.OneLine(base, 300))}, true
 	}
 	return verdict{}, true
 }
+
+func equalStrings(a, b []string) bool {
+	if len(a) != len(b) {
+		return false
+	}
+	for i := range a {
+		if a[i] != b[i] {
+			return false
+		}
+	}
+	return true
+}
+
+// findingReflow: see /verif/known_findings.d/C11.json
+const findingReflow = "C11-layout-reflow-after-filter"
 
 func docHash(d *docSpec) string {
 	var sb strings.Builder
@@ -311,7 +376,16 @@ func runPDF(c *fw.Ctx, dir string, i int) {
 		return
 	}
 	defer os.Remove(path)
-	pc := &pdfCase{id: id, d: d, per: per, path: path}
+	pc := &pdfCase{id: id, d: d, per: per, path: path, renderSeed: func() *rand.Rand { return c.Rand("pdf", i, "render") }}
+	defer func() {
+		if pc.reducedPath != "" {
+			os.Remove(pc.reducedPath)
+		}
+	}()
+	if os.Getenv("C11_DEBUG") != "" {
+		fmt.Fprintln(os.Stderr, d.describe())
+		os.WriteFile("/tmp/c11-debug.pdf", data, 0o644)
+	}
 	reqs := genRequests(c.Rand("pdf", i, "req"), d, 5)
 	c.Case(docHash(d)+fmt.Sprint(reqs), d.nontrivial())
 	for _, f := range d.featureList() {
@@ -340,7 +414,11 @@ func runPDF(c *fw.Ctx, dir string, i int) {
 		return map[string]any{"document": strings.Split(strings.TrimSpace(d.describe()), "\n"), "features": d.featureList(), "pdf_bytes": len(data)}
 	}
 	report := func(v verdict) {
-		c.Fail("", v.Class, id, v.What, detail())
+		if d.CharLevel {
+			v.Class = "char-level/" + v.Class
+			v.What = "[character-level document] " + v.What
+		}
+		c.Fail(v.Finding, v.Class, id, v.What, detail())
 	}
 	c.Guard("direct", id, detail(), func() {
 		v, ok := directCheck(c, pc)
@@ -350,6 +428,8 @@ func runPDF(c *fw.Ctx, dir string, i int) {
 		}
 		if v.Class != "" {
 			report(v)
+		} else {
+			pc.directOK = true
 		}
 	})
 	for _, q := range reqs {
